@@ -27,6 +27,9 @@ CATALOGUE = {
     "SIR_N": dict(model={"states": [{"name": "S"}, {"name": "I"}, {"name": "R"}], "params": ["beta", "gamma", "N"],
                          "processes": [{"rate": "beta*S*I/N", "trans": [_T("S", "I")]}, {"rate": "gamma*I", "trans": [_T("I", "R")]}]},
                   theta=[0.6, 0.25, 100.0], x0=[95.0, 5.0, 0.0], box=[[0.2, 2.0], [0.05, 1.0], [50.0, 200.0]], tmax=30.0, positive=True),
+    "SIR_C": dict(model={"states": [{"name": "S"}, {"name": "I"}, {"name": "R"}], "params": ["beta", "gamma"],
+                         "processes": [{"rate": "beta*S*I/200", "trans": [_T("S", "I")]}, {"rate": "gamma*I", "trans": [_T("I", "R")]}]},
+                  theta=[1.5, 0.5], x0=[199.0, 1.0, 0.0], box=[[0.3, 3.0], [0.1, 1.5]], tmax=40.0, positive=True),
     "SEIR": dict(model={"states": [{"name": "S"}, {"name": "E"}, {"name": "I"}, {"name": "R"}], "params": ["beta", "alpha", "gamma"],
                         "processes": [{"rate": "beta*S*I", "trans": [_T("S", "E")]}, {"rate": "alpha*E", "trans": [_T("E", "I")]},
                                       {"rate": "gamma*I", "trans": [_T("I", "R")]}]},
@@ -65,7 +68,7 @@ CATALOGUE = {
 def pick_problem(rng, random_frac=0.35, positive=None, min_p=1, tier="quick"):
     """Return (name, model, theta, x0, t0, tmax, box, positive)."""
     for _ in range(200):
-        t0 = rng.choice([0.0, 0.0, 0.0, 1.0])
+        t0 = rng.choice([0.0, 0.0, 0.0, 1.0, 0.5, 0.25, 2.75])
         if rng.random() < random_frac:
             model, names, params = gen.gen_model(rng, stochastic=False, p=rng.randint(max(1, min_p), 4),
                                                  m=rng.randint(1, 4), allow_range=rng.random() < 0.2,
@@ -158,7 +161,20 @@ class Session(object):
             self.ode.parameters = list(self.theta)
         self.x0 = np.array(case["x0"], float)
         self.t0 = float(case["t0"])
-        self.ode.initial_values = (self.x0.copy(), np_time(self.t0))
+        x0arg = self.x0.copy()
+        how = case.get("x0_as", "array")
+        if how == "list":
+            x0arg = [float(v) for v in self.x0]
+        elif how == "int_array" and np.all(self.x0 == np.round(self.x0)):
+            x0arg = np.array([int(v) for v in self.x0], dtype=int)
+        elif how == "tuple":
+            x0arg = tuple(float(v) for v in self.x0)
+        t0arg = np_time(self.t0)
+        if case.get("t0_as") == "float":
+            t0arg = float(self.t0)
+        elif case.get("t0_as") == "int" and self.t0 == int(self.t0):
+            t0arg = int(self.t0)
+        self.ode.initial_values = (x0arg, t0arg)
         self.i = seams.ISeam(self.pg.ou, env.get("I", "native")).install()
         self.loss = {}
         self.lossdef = {}
@@ -189,6 +205,12 @@ def make_times_arg(op):
         return [float(v) for v in g]
     if ty == "tuple":
         return tuple(float(v) for v in g)
+    if ty == "int_array":                     # integer dtype grid (np.arange of whole days)
+        return np.array([int(v) for v in g], dtype=int)
+    if ty == "int_list":
+        return [int(v) for v in g]
+    if ty == "int_tuple":
+        return tuple(int(v) for v in g)
     return np.array(g, float)
 
 
@@ -898,6 +920,15 @@ def gen_solve_ops(rng, t0, tmax, count):
         grid = gen_times(rng, t0, tmax)
         entry = rng.choice(["integrate", "solve_determ", "integrate2", "integrate2", "funcjac", "funcjac", "funcjac"])
         op = {"op": "solve", "entry": entry, "grid": grid, "gtype": rng.choice(["array", "array", "list", "tuple"])}
+        if rng.random() < 0.2:
+            # whole-number grids with an integer dtype (the initial time may still be fractional)
+            first = int(math.floor(t0)) + 1
+            k = rng.randint(2, 8)
+            step = rng.choice([1, 1, 2])
+            ints = [first + j * step for j in range(k) if first + j * step <= t0 + max(tmax, 3)]
+            if len(ints) >= 2:
+                op["grid"] = [float(v) for v in ints]
+                op["gtype"] = rng.choice(["int_array", "int_list", "int_tuple"])
         if rng.random() < 0.08:
             op["grid"] = grid[-1:]
             op["gtype"] = "scalar"
